@@ -363,6 +363,7 @@ class Context:
                 return obj
             if proto is NULL or proto is None:
                 obj._prototype = None
+                obj._null_prototype = True
             elif isinstance(proto, JSObject):
                 # A prototype chain must stay acyclic: every lookup walks it to the end
                 current = proto
@@ -373,6 +374,7 @@ class Context:
                         raise JSTypeError("Cyclic __proto__ value")
                     current = current._prototype
                 obj._prototype = proto
+                obj._null_prototype = False
             return obj
 
         def define_property(*args):
@@ -429,6 +431,7 @@ class Context:
             obj = JSObject()
             if proto is NULL or proto is None:
                 obj._prototype = None
+                obj._null_prototype = True
             elif isinstance(proto, JSObject):
                 obj._prototype = proto
 
